@@ -172,6 +172,22 @@ CLAIMS = {
          "follow opcodes.h.",
     technique="TLA+ executable reference semantics (OrcOps) evaluated by TLC on traces of the emulator; TLC-checked "
               "sanity theorems of the reference"),
+ "C01": dict(
+    text="Native code is judged against the reference semantics directly (so native = emulation follows and a shared "
+         "error would still be caught).  (1) One-opcode programs for every integer opcode compiled for avx, sse and "
+         "mmx by target name, second operand as array / parameter / constant, x1/x2/x4, n crossing every vector "
+         "width, misaligned arrays: TLC validates every element against OrcOps.  (2) Multi-instruction programs from "
+         "8 templates (temporaries reused and rewritten, repeated operands, an operand live while the other dies, "
+         "in-place destinations, constants, parameters, accumulators, x2/x4, 1-D and 2-D with unequal row alignment) "
+         "with seeded opcode choices, each run 14 times on one reused executor on avx/sse/mmx/emulation: TLC "
+         "validates every destination row, accumulator and fence against OrcProg.  (3) X86Loop.tla, the head/body/"
+         "tail split, is model-checked for every n <= 70, start address, element and register size, unroll shift "
+         "(each index exactly once, never past n, aligned body), and the stale-counter variant is refuted.",
+    design_ref="DESIGN.md section 6 C01",
+    note="Value coverage is bounded by TLC's evaluation rate (about 10^5..10^6 elements per run); flag subsets are "
+         "C11's, float opcodes C18's; rows are aligned to the element size; programs have at most 4 instructions.",
+    technique="TLA+ executable semantics (OrcOps, OrcProg) evaluated by TLC on traces of native executions; TLC model "
+              "checking of the loop-split design (X86Loop)"),
 }
 
 NOT_APPLICABLE = {
